@@ -855,6 +855,38 @@ neu('n_double_overflow_is_finite_form', 'C13 C02', FUN, '''            if parsed
             {''', '''            let names_infinity =
                 spelled.eq_ignore_ascii_case("inf") || spelled.eq_ignore_ascii_case("infinity");
             if !parsed.is_finite() && !parsed.is_nan() && !names_infinity {''')
+brk('c15_sign_from_seconds', 'C15', DURF, '''    let nanos = i128::from(d.num_seconds()) * 1_000_000_000 + i128::from(d.subsec_nanos());
+    let neg = nanos < 0;''', '''    let nanos = i128::from(d.num_seconds()) * 1_000_000_000 + i128::from(d.subsec_nanos());
+    let neg = d.num_seconds() < 0;''')
+brk('c09_uint_int_eq_cast', 'C09', OBJ, '''            (Value::UInt(a), Value::Int(b)) => a
+                .to_owned()
+                .try_into()
+                .map(|a: i64| a == *b)
+                .unwrap_or(false),''', '''            (Value::UInt(a), Value::Int(b)) => *a == *b as u64,''')
+neu('n_int_uint_eq_guarded_cast', 'C09 C02', OBJ, '''            (Value::Int(a), Value::UInt(b)) => a
+                .to_owned()
+                .try_into()
+                .map(|a: u64| a == *b)
+                .unwrap_or(false),''', '''            (Value::Int(a), Value::UInt(b)) => *a >= 0 && *a as u64 == *b,''')
+brk('c01_map_guard_precedence', 'C01 C10', MAC, '''(args.len() == 2 || args.len() == 3) && target.is_some()''', '''args.len() == 2 || args.len() == 3 && target.is_some()''')
+_TQ = '    for (quote, delimiter) in [(\'\\\'\', "\'\'\'"), (\'"\', "\\"\\"\\"")] {\n'
+brk('c12_triple_quotes_unrecognised', 'C12', 'antlr/src/parse.rs', _TQ + '        let content = body\n            .strip_prefix(delimiter)\n            .and_then(|rest| rest.strip_suffix(delimiter));\n        if let Some(content) = content {\n            if raw {\n                return Ok(content.to_string());\n            }\n            let mut chars = content.chars().enumerate();\n            return parse_quoted_string(s, &mut chars, res, quote, true);\n        }\n    }\n', '    let _ = (raw, body);\n')
+brk('c12_triple_double_forgotten', 'C12', 'antlr/src/parse.rs', _TQ, '    for (quote, delimiter) in [(\'\\\'\', "\'\'\'")] {\n')
+brk('c04_list_literal_reversed', 'C04', PAR, '''                    list.push(self.visit(exp.as_ref()));''', '''                    list.insert(0, self.visit(exp.as_ref()));''')
+brk('c04_map_value_from_other_entry', 'C04', PAR, '''            let value = self.visit(vals[i].as_ref());''', '''            let value = self.visit(vals[vals.len() - 1 - i].as_ref());''')
+brk('c04_select_test_set', 'C04', PAR, '''                    operand: Box::new(operand),
+                    field,
+                    test: false,''', '''                    operand: Box::new(operand),
+                    field,
+                    test: true,''')
+brk('c19_report_sets_crossed', 'C19', REF, '''        ExpressionReferences {
+            variables,
+            functions,
+        }''', '''        ExpressionReferences {
+            variables: functions,
+            functions: variables,
+        }''')
+brk('c19_variables_skips_first', 'C19', REF, '''        self.variables.iter().copied().collect()''', '''        self.variables.iter().copied().skip(1).collect()''')
 
 
 
